@@ -1,5 +1,5 @@
 import TF.Proofs.NttFinal
-import TF.Proofs.GenBridgeNtt
+import TF.Proofs.GenBridgeNtt3
 /-!
 # C06 — NTT is the discrete Fourier transform over the field; INTT is its inverse
 
@@ -227,8 +227,8 @@ end TF.C06
 
 /-! ## regenerated-from-source bridge (tools/rs2lean_ext.py, `TF/Gen/NttLoops.lean`)
 
-`bitreverse`, `bitreverse_usize`, `bitreverse_order`, `ntt_unchecked` and `intt_noswap` are **also regenerated from
-`ntt.rs` on every run**, with the field operations as a parameter `ops : Ops σ α` (so one generated definition serves both
+**Every function of `ntt.rs`** — `bitreverse`, `bitreverse_usize`, `bitreverse_order`, `ntt_unchecked`, `intt_noswap`,
+`ntt_noswap`, `unscale` and the wrappers `ntt`, `intt` — is **also regenerated from `ntt.rs` on every run**, with the field operations as a parameter `ops : Ops σ α` (so one generated definition serves both
 fields; the driver evaluates it on `bOps` and `xOps` next to the hand model and prints `GEN-MISMATCH` on a difference).
 Proved here (proofs in `TF/Proofs/GenBridgeNtt.lean`), for every `ops`:
 
@@ -242,10 +242,15 @@ Proved here (proofs in `TF/Proofs/GenBridgeNtt.lean`), for every `ops`:
 * `gen_butterfly_block_pointwise`: the in-place inner loop, pointwise in terms of the slice before the loop (each index
   pair written once) — the block-level content of "in-place loop = functional stage".
 
-Not yet proved, stated as `gen_ntt_unchecked_statement` (a `_partial` entry): the composition over the `while k < len` block
-loop (fuel `len + 1` suffices) and the stage loop, and the identification of the block formula with the model's `stage`
-(`Array.ofFn`, twiddle table `powers`); that part stays tied by the driver's side-by-side evaluation and the
-correspondence check. -/
+* `gen_ntt_unchecked_eq_model`, `gen_intt_noswap_eq_model`, `gen_bitreverse_order_eq_model` (proofs in
+  `TF/Proofs/GenBridgeNtt2.lean`): the composition over the `while k < len { ..; k += 2 * m }` block loop (invariant: blocks
+  below `k` hold the stage formula of the slice before the stage, the rest is untouched; `#blocks + 1` evaluations of the
+  loop head suffice), the identification of the result with the model's `stage` (`Array.ofFn`, twiddle table `powers` =
+  repeated `w *= w_m`), the stage loop = `stagesLoop`, the `logn` loops = `ceilLog2`.  **The step from the in-place Rust
+  loops to the functional stages is proved, not tied by correspondence.**  The statements have the form
+  `(gen x).bind (fun r => if gen_ok x then some r else none) = (model x).map Array.toList`: the left side is `none` when the
+  regenerated function runs out of fuel (never, that is part of what is proved) or when its `_ok` twin is false (an index
+  out of range, an arithmetic overflow, an `unwrap` of `None` — a panic), the right side is `none` when the model panics. -/
 namespace TF.C06
 open TF.Gen TF.Model.Ntt
 
@@ -309,20 +314,220 @@ theorem gen_butterfly_block_pointwise {σ α : Type} (ops : Ops σ α) (m : Nat)
   simp only [Nat.add_zero]
 example : TF.GenBridge.Ntt.wp bOps 5 1 2 = 25 := by decide
 
-/-- the full bridge (not yet proved): the regenerated `ntt_unchecked` finishes within its fuel, panics exactly when the
-    model does and returns the model's result -/
-def gen_ntt_unchecked_statement : Prop :=
-  ∀ {σ α : Type} (ops : Ops σ α) (x : Array α) (omega : σ) (log : Nat), log ≤ 31 → x.size = 2 ^ log →
+/-- **`ntt_unchecked` regenerated from source = the model** (bit-reversal swap loop, then one functional `Array.ofFn` pass
+    per stage), for every `ops`, every `ω`, every `log ≤ 31` and every vector of length `2^log` (the only way `ntt`/`intt`
+    call it, besides the empty slice): the regenerated function finishes within its fuel, panics exactly when the model
+    does, and returns the model's result.  (`log = 32` is excluded because `x.len() as u32` is then `0`.) -/
+theorem gen_ntt_unchecked_eq_model {σ α : Type} (ops : Ops σ α) (x : Array α) (omega : σ) (log : Nat) (hl : log ≤ 31)
+    (hx : x.size = 2 ^ log) :
     (Loops.ntt_unchecked ops x.toList omega log).bind
         (fun r => if Loops.ntt_unchecked_ok ops x.toList omega log then some r else none)
-      = (nttUnchecked ops x omega log).map Array.toList
+      = (nttUnchecked ops x omega log).map Array.toList :=
+  TF.GenBridge.Ntt.gen_ntt_unchecked_eq ops x omega log hl hx
+example : Loops.ntt_unchecked bOps [1, 4, 0, 0] 281474976710656 2 =
+    some [5, 1125899906842625, 18446744069414584318, 18445618169507741698] ∧
+    Loops.ntt_unchecked_ok bOps [1, 4, 0, 0] 281474976710656 2 = true := by decide +kernel
 
-/-- what is proved of `gen_ntt_unchecked_statement`: its first phase (the swap loop) and the innermost loop of its second
-    phase, for the code as it is in the source now -/
-theorem gen_ntt_unchecked_partial {σ α : Type} (ops : Ops σ α) (x : Array α) (log : Nat) (hl : log ≤ 32) :
-    (if Loops.ntt_unchecked_for_ok ops log x.size 0 x.toList then some (Loops.ntt_unchecked_for ops log x.size 0 x.toList)
-      else none) = (bitrevPermute x log).map Array.toList :=
-  TF.GenBridge.Ntt.unchecked_for_eq ops log hl x.size 0 x
-example : (bitrevPermute #[10, 11, 12, 13] 2).map Array.toList = some [10, 12, 11, 13] := by decide
+/-- the empty slice: `ntt_unchecked(x, ω, 0)` does nothing on either side -/
+theorem gen_ntt_unchecked_empty {σ α : Type} (ops : Ops σ α) (omega : σ) :
+    Loops.ntt_unchecked ops ([] : List α) omega 0 = some [] ∧ Loops.ntt_unchecked_ok ops ([] : List α) omega 0 = true ∧
+    nttUnchecked ops (#[] : Array α) omega 0 = some #[] :=
+  TF.GenBridge.Ntt.gen_ntt_unchecked_empty ops omega
+example : Loops.ntt_unchecked bOps [] 1 0 = some [] := by decide
+
+/-- one stage of the source's in-place loops is the model's functional stage: after the regenerated block loop
+    `while k < len { for j in 0..m { .. }; k += 2 * m }` over a slice of `B` blocks of size `2m` the slice is
+    `stage ops m (powers ops w_m m) a` — within `B + 1` evaluations of the loop head, with no overflow -/
+theorem gen_block_loop_eq_stage {σ α : Type} (ops : Ops σ α) (m : Nat) (hm : 0 < m) (w_m : σ) (a : Array α) (B : Nat)
+    (hlen : a.size = B * (2 * m)) (hU : a.size < 4294967296) (fuel : Nat) (hf : B + 1 ≤ fuel) :
+    Loops.ntt_unchecked_loop3 ops a.size m w_m fuel a.toList 0 = some ((stage ops m (powers ops w_m m) a).toList, a.size) ∧
+    Loops.ntt_unchecked_loop3_ok ops a.size m w_m fuel a.toList 0 = true := by
+  obtain ⟨z, hz, hzok, hzi⟩ := TF.GenBridge.Ntt.unchecked_loop3_eq ops m hm w_m a.toList B (by simpa using hlen)
+    (by simpa using hU) a.size (by simp) B 0 a.toList (by omega) (TF.GenBridge.Ntt.blockInv_zero _ _ _ _) fuel hf
+  rw [Nat.zero_mul] at hz hzok
+  rw [← TF.GenBridge.Ntt.blockInv_full ops m hm w_m a B hlen z hzi]
+  exact ⟨hz, hzok⟩
+example : Loops.ntt_unchecked_loop3 bOps 4 1 1 3 [1, 2, 3, 4] 0 = some ([3, 18446744069414584320, 7, 18446744069414584320], 4) := by
+  decide +kernel
+
+/-- **`intt_noswap` regenerated from source = the model** for *every* vector, every `ops`, and every root look-up that is
+    defined only on `0` and the powers of two up to `2^32` (as `BFieldElement::primitive_root_of_unity` is —
+    `primitive_roots_table`): same panics (`unwrap` of a missing root on every other length, `inverse` of zero), finishes
+    within its fuel, same values -/
+theorem gen_intt_noswap_eq_model {σ α : Type} (ops : Ops σ α) (root : Nat → Option σ)
+    (hroot : ∀ n, (root n).isSome = true → n = 0 ∨ ∃ L, L ≤ 32 ∧ n = 2 ^ L) (x : Array α) :
+    (Loops.intt_noswap ops root x.toList).bind
+        (fun r => if Loops.intt_noswap_ok ops root x.toList then some r else none)
+      = (inttNoswap ops root x).map Array.toList :=
+  TF.GenBridge.Ntt.gen_intt_noswap_eq_all ops root hroot x
+example : ∀ n, (primitiveRoot n).isSome = true → n = 0 ∨ ∃ L, L ≤ 32 ∧ n = 2 ^ L := by
+  intro n h
+  obtain ⟨r, hr⟩ := Option.isSome_iff_exists.mp h
+  rcases primitive_roots_table n r (primitive_root_is_entry n r hr) with ⟨h0, _⟩ | ⟨k, hk, hn, _⟩
+  · exact Or.inl h0
+  · exact Or.inr ⟨k, hk, hn⟩
+
+/-- the same for a fixed length `2^L`, `L ≤ 32`, with an arbitrary root look-up -/
+theorem gen_intt_noswap_eq_model_pow2 {σ α : Type} (ops : Ops σ α) (root : Nat → Option σ) (x : Array α) (L : Nat)
+    (hL : L ≤ 32) (hx : x.size = 2 ^ L) :
+    (Loops.intt_noswap ops root x.toList).bind
+        (fun r => if Loops.intt_noswap_ok ops root x.toList then some r else none)
+      = (inttNoswap ops root x).map Array.toList :=
+  TF.GenBridge.Ntt.gen_intt_noswap_eq ops root x L hL hx
+example : Loops.intt_noswap bOps primitiveRoot [5, 18446744069414584318, 1125899906842625, 18445618169507741698]
+    = some [4, 16, 0, 0] := by decide +kernel
+
+/-- **`bitreverse_order` regenerated from source = the model**, every array of length `≤ 2^63`, every `ops`: the `logn`
+    loop finishes within 65 evaluations of its head without a shift overflow and yields `⌈log₂ len⌉`; the swap loop agrees
+    in value and in panic (a swap target beyond the end, on lengths that are not a power of two) -/
+theorem gen_bitreverse_order_eq_model {σ α : Type} (ops : Ops σ α) (a : Array α) (ha : a.size ≤ 2 ^ 63) :
+    (Loops.ntt_bitreverse_order ops a.toList).bind
+        (fun r => if Loops.ntt_bitreverse_order_ok ops a.toList then some r else none)
+      = (bitreverseOrder a).map Array.toList :=
+  TF.GenBridge.Ntt.gen_bitreverse_order_eq ops a ha
+example : Loops.ntt_bitreverse_order bOps [0, 1, 2, 3, 4, 5, 6, 7] = some [0, 4, 2, 6, 1, 5, 3, 7] ∧
+    Loops.ntt_bitreverse_order_ok bOps [0, 1, 2, 3, 4] = false ∧ bitreverseOrder #[0, 1, 2, 3, 4] = none := by decide +kernel
+
+/-! ### the wrappers `ntt` / `intt`, `ntt_noswap`, `unscale` (proofs in `TF/Proofs/GenBridgeNtt3.lean`) -/
+
+/-- **`ntt` regenerated from source = the model, for every vector, every `ops`, every root look-up**:
+    `u32::try_from(len).expect(..)`, `assert!(len == 0 || len.is_power_of_two())`, `checked_ilog2().unwrap_or(0)`,
+    `primitive_root_of_unity(len).unwrap()` and the regenerated `ntt_unchecked`; rejected lengths panic on both sides -/
+theorem gen_ntt_eq_model {σ α : Type} (ops : Ops σ α) (root : Nat → Option σ) (x : Array α) :
+    (Loops.ntt_ntt ops root x.toList).bind (fun r => if Loops.ntt_ntt_ok ops root x.toList then some r else none)
+      = (ntt ops root x).map Array.toList :=
+  TF.GenBridge.Ntt.gen_ntt_eq ops root x
+example : Loops.ntt_ntt bOps primitiveRoot [1, 4, 0, 0] =
+    some [5, 1125899906842625, 18446744069414584318, 18445618169507741698] ∧
+    Loops.ntt_ntt_ok bOps primitiveRoot [1, 4, 0, 0] = true ∧ Loops.ntt_ntt_ok bOps primitiveRoot [1, 4, 0] = false := by
+  decide +kernel
+
+/-- **`intt` regenerated from source = the model, for every vector**: the checks of `ntt`, `omega.inverse()`, the
+    regenerated `ntt_unchecked`, then `*elem *= BFieldElement::from(len).inverse_or_zero()` over the whole slice -/
+theorem gen_intt_eq_model {σ α : Type} (ops : Ops σ α) (root : Nat → Option σ) (x : Array α) :
+    (Loops.ntt_intt ops root x.toList).bind (fun r => if Loops.ntt_intt_ok ops root x.toList then some r else none)
+      = (intt ops root x).map Array.toList :=
+  TF.GenBridge.Ntt.gen_intt_eq ops root x
+example : Loops.ntt_intt bOps primitiveRoot [5, 1125899906842625, 18446744069414584318, 18445618169507741698] =
+    some [1, 4, 0, 0] := by decide +kernel
+
+/-- **`ntt_noswap` regenerated from source = the model for every vector** (root look-up defined only on `0` and the powers
+    of two up to `2^32`): the `logn` loop, the table `powers_of_omega_bitreversed` (`vec![ZERO; n]`, writes at
+    `bitreverse_usize(i, logn - 1)`; `logn - 1` is never evaluated for `n = 1`), the `while m < n` stage loop with the
+    `enumerate().take(m)` block loop and the in-place butterflies = `powersBitrev` / `noswapLoop` / `stageNoswap` -/
+theorem gen_ntt_noswap_eq_model {σ α : Type} (ops : Ops σ α) (root : Nat → Option σ)
+    (hroot : ∀ n, (root n).isSome = true → n = 0 ∨ ∃ L, L ≤ 32 ∧ n = 2 ^ L) (x : Array α) :
+    (Loops.ntt_noswap ops root x.toList).bind
+        (fun r => if Loops.ntt_noswap_ok ops root x.toList then some r else none)
+      = (nttNoswap ops root x).map Array.toList :=
+  TF.GenBridge.Ntt.gen_ntt_noswap_eq_all ops root hroot x
+example : Loops.ntt_noswap bOps primitiveRoot [1, 4, 0, 0] =
+    some [5, 18446744069414584318, 1125899906842625, 18445618169507741698] ∧
+    Loops.ntt_noswap_ok bOps primitiveRoot [1, 4, 0, 0] = true := by decide +kernel
+
+/-- the same for a fixed length `2^L`, `L ≤ 32`, with an arbitrary root look-up -/
+theorem gen_ntt_noswap_eq_model_pow2 {σ α : Type} (ops : Ops σ α) (root : Nat → Option σ) (x : Array α) (L : Nat)
+    (hL : L ≤ 32) (hx : x.size = 2 ^ L) :
+    (Loops.ntt_noswap ops root x.toList).bind
+        (fun r => if Loops.ntt_noswap_ok ops root x.toList then some r else none)
+      = (nttNoswap ops root x).map Array.toList :=
+  TF.GenBridge.Ntt.gen_ntt_noswap_eq ops root x L hL hx
+example : (#[1, 4, 0, 0] : Array Nat).size = 2 ^ 2 := by decide
+
+/-- **`unscale` regenerated from source = the model** (slices of `BFieldElement`: scalar type = element type; `*a *= ninv`
+    is the scalar multiplication, the model's `scale ninv a` — equal when multiplication commutes), value and panic
+    (`inverse` of zero on the empty slice); instance: the executable base field -/
+theorem gen_unscale_eq_model {σ : Type} (ops : Ops σ σ) (hc : ∀ a w, ops.smul a w = ops.scale w a) (a : Array σ) :
+    (if Loops.ntt_unscale_ok ops a.toList then some (Loops.ntt_unscale ops a.toList) else none)
+      = (unscale ops a).map Array.toList :=
+  TF.GenBridge.Ntt.gen_unscale_eq ops hc a
+example : (∀ a w, bOps.smul a w = bOps.scale w a) ∧ Loops.ntt_unscale bOps [4, 16, 0, 0] = [1, 4, 0, 0] ∧
+    Loops.ntt_unscale_ok bOps [] = false := by
+  refine ⟨fun a w => ?_, by decide +kernel, by decide +kernel⟩
+  show Spec.fmul a w = Spec.fmul w a
+  simp only [Spec.fmul, Nat.mul_comm]
+
+/-! ### transfer: C06's main results hold for the code regenerated from the current source -/
+
+open TF.NttFn TF.NttProofs in
+/-- **NTT = DFT, for the regenerated `ntt`** (`ntt_eq_dft` transferred): it finishes, does not panic and returns the DFT -/
+theorem gen_ntt_eq_dft {R : Type} [CommRing R] (inv : R → Option R) (inv0 : R → R) (root : Nat → Option R)
+    (L : Nat) (hL : L ≤ 31) (ω : R) (hr : root (2^L) = some ω) (hω : 0 < L → ω^(2^(L-1)) = -1)
+    (x : Array R) (hx : x.size = 2^L) :
+    ∃ y : Array R, Loops.ntt_ntt (ringOps R inv inv0) root x.toList = some y.toList ∧
+      Loops.ntt_ntt_ok (ringOps R inv inv0) root x.toList = true ∧ y.size = 2^L ∧
+      ∀ i, i < 2^L → toFn y i = dft (2^L) ω (toFn x) i := by
+  obtain ⟨y, hy, hs, hd⟩ := ntt_eq_dft inv inv0 root L hL ω hr hω x hx
+  obtain ⟨g, ok⟩ := TF.GenBridge.Ntt.run_transfer (gen_ntt_eq_model (ringOps R inv inv0) root x) hy
+  exact ⟨y, g, ok, hs, hd⟩
+example : (2 : ℕ) ≤ 31 ∧ (0 < 2 → ((2 : ZMod 5))^(2^(2-1)) = -1) := by decide
+
+open TF.NttFn TF.NttProofs in
+/-- **INTT inverts NTT, for the regenerated `ntt` and `intt`** (`intt_ntt` transferred) -/
+theorem gen_intt_ntt {R : Type} [CommRing R] (inv : R → Option R) (inv0 : R → R) (root : Nat → Option R)
+    (L : Nat) (hL : L ≤ 31) (ω ωi : R) (hr : root (2^L) = some ω) (hi : inv ω = some ωi) (hinv : ωi * ω = 1)
+    (hn : inv0 ((2^L : ℕ) : R) * ((2^L : ℕ) : R) = 1) (hω : 0 < L → ω^(2^(L-1)) = -1)
+    (x : Array R) (hx : x.size = 2^L) :
+    ∃ y : Array R, Loops.ntt_ntt (ringOps R inv inv0) root x.toList = some y.toList ∧
+      Loops.ntt_ntt_ok (ringOps R inv inv0) root x.toList = true ∧
+      Loops.ntt_intt (ringOps R inv inv0) root y.toList = some x.toList ∧
+      Loops.ntt_intt_ok (ringOps R inv inv0) root y.toList = true := by
+  obtain ⟨y, hy, hz⟩ := intt_ntt inv inv0 root L hL ω ωi hr hi hinv hn hω x hx
+  obtain ⟨g, ok⟩ := TF.GenBridge.Ntt.run_transfer (gen_ntt_eq_model (ringOps R inv inv0) root x) hy
+  obtain ⟨g2, ok2⟩ := TF.GenBridge.Ntt.run_transfer (gen_intt_eq_model (ringOps R inv inv0) root y) hz
+  exact ⟨y, g, ok, g2, ok2⟩
+example : (Loops.ntt_ntt bOps primitiveRoot [7, 0, 3, 9]).bind (Loops.ntt_intt bOps primitiveRoot) = some [7, 0, 3, 9] := by
+  decide +kernel
+
+open TF.NttFn TF.NttProofs in
+/-- **the regenerated `ntt_noswap` returns the DFT in bit-reversed order** (`ntt_noswap_eq_dft_bitreversed` transferred) -/
+theorem gen_ntt_noswap_eq_dft_bitreversed {R : Type} [CommRing R] (inv : R → Option R) (inv0 : R → R)
+    (root : Nat → Option R) (L : Nat) (hL : L ≤ 32) (ω : R) (hr : root (2^L) = some ω) (hω : 0 < L → ω^(2^(L-1)) = -1)
+    (x : Array R) (hx : x.size = 2^L) :
+    ∃ y : Array R, Loops.ntt_noswap (ringOps R inv inv0) root x.toList = some y.toList ∧
+      Loops.ntt_noswap_ok (ringOps R inv inv0) root x.toList = true ∧ y.size = 2^L ∧
+      ∀ i, i < 2^L → toFn y i = dft (2^L) ω (toFn x) (bitrev L i) := by
+  obtain ⟨y, hy, hs, hd⟩ := ntt_noswap_eq_dft_bitreversed inv inv0 root L ω hr hω x hx
+  obtain ⟨g, ok⟩ := TF.GenBridge.Ntt.run_transfer (gen_ntt_noswap_eq_model_pow2 (ringOps R inv inv0) root x L hL hx) hy
+  exact ⟨y, g, ok, hs, hd⟩
+example : TF.NttFn.bitrev 2 1 = 2 ∧ TF.NttFn.bitrev 2 2 = 1 := by decide
+
+open TF.NttFn TF.NttProofs in
+/-- **regenerated `intt_noswap ∘ ntt_noswap = n · id`** (`intt_noswap_ntt_noswap` transferred) -/
+theorem gen_intt_noswap_ntt_noswap {R : Type} [CommRing R] (inv : R → Option R) (inv0 : R → R)
+    (root : Nat → Option R) (L : Nat) (hL : L ≤ 32) (ω ωi : R) (hr : root (2^L) = some ω) (hi : inv ω = some ωi)
+    (hinv : ωi * ω = 1) (hω : 0 < L → ω^(2^(L-1)) = -1) (x : Array R) (hx : x.size = 2^L) :
+    ∃ y z : Array R, Loops.ntt_noswap (ringOps R inv inv0) root x.toList = some y.toList ∧
+      Loops.ntt_noswap_ok (ringOps R inv inv0) root x.toList = true ∧
+      Loops.intt_noswap (ringOps R inv inv0) root y.toList = some z.toList ∧
+      Loops.intt_noswap_ok (ringOps R inv inv0) root y.toList = true ∧
+      z.size = 2^L ∧ ∀ i, i < 2^L → toFn z i = ((2^L : ℕ) : R) * toFn x i := by
+  obtain ⟨y, z, hy, hz, hs, hd⟩ := intt_noswap_ntt_noswap inv inv0 root L ω ωi hr hi hinv hω x hx
+  obtain ⟨y', hy', hys, _⟩ := ntt_noswap_eq_dft_bitreversed inv inv0 root L ω hr hω x hx
+  have hyy : y' = y := by rw [hy] at hy'; exact (Option.some.inj hy').symm
+  subst hyy
+  obtain ⟨g, ok⟩ := TF.GenBridge.Ntt.run_transfer (gen_ntt_noswap_eq_model_pow2 (ringOps R inv inv0) root x L hL hx) hy
+  obtain ⟨g2, ok2⟩ := TF.GenBridge.Ntt.run_transfer (gen_intt_noswap_eq_model_pow2 (ringOps R inv inv0) root y' L hL hys) hz
+  exact ⟨y', z, g, ok, g2, ok2, hs, hd⟩
+example : (Loops.ntt_noswap bOps primitiveRoot [1, 4, 0, 0]).bind (Loops.intt_noswap bOps primitiveRoot) = some [4, 16, 0, 0] := by
+  decide +kernel
+
+open TF.NttFn TF.NttProofs in
+/-- **base field, regenerated code**: on canonical values the regenerated `ntt` is the DFT in `ZMod P` at the powers of the
+    tabulated root and the regenerated `intt` inverts it (`ntt_b_is_dft`, `intt_ntt_b_roundtrip` transferred) -/
+theorem gen_ntt_b_is_dft (L : Nat) (hL : L ≤ 31) (x : Array Nat) (hx : x.size = 2^L) :
+    ∃ (r : Nat) (y z : Array Nat), primitiveRoot (2^L) = some r ∧
+      Loops.ntt_ntt bOps primitiveRoot x.toList = some y.toList ∧ Loops.ntt_ntt_ok bOps primitiveRoot x.toList = true ∧
+      y.size = 2^L ∧ (∀ i, i < 2^L → zvec y i = dft (2^L) ((r : ℕ) : ZMod P) (zvec x) i) ∧
+      Loops.ntt_intt bOps primitiveRoot y.toList = some z.toList ∧ Loops.ntt_intt_ok bOps primitiveRoot y.toList = true ∧
+      z.size = x.size ∧ ∀ i, zvec z i = zvec x i := by
+  obtain ⟨r, y, hr, hy, hs, hd⟩ := ntt_b_is_dft L hL x hx
+  obtain ⟨⟨y', z, hy', hz, hzs, hzv⟩, _⟩ := intt_ntt_b_roundtrip L hL x hx
+  have hyy : y' = y := by rw [hy] at hy'; exact (Option.some.inj hy').symm
+  subst hyy
+  obtain ⟨g, ok⟩ := TF.GenBridge.Ntt.run_transfer (gen_ntt_eq_model bOps primitiveRoot x) hy
+  obtain ⟨g2, ok2⟩ := TF.GenBridge.Ntt.run_transfer (gen_intt_eq_model bOps primitiveRoot y') hz
+  exact ⟨r, y', z, hr, g, ok, hs, hd, g2, ok2, hzs, hzv⟩
+example : (#[7, 0, 3, 9] : Array Nat).size = 2^2 := by decide
 
 end TF.C06
